@@ -17,6 +17,7 @@ RULE = ("bounded-exhaustive: every byte string of length 0..2, every string of l
 ASSUMPTIONS = ["reference base58 (long division on digit lists) in vf/ref/base58_ref.py is correct; "
                "it is checked against the doctest literals of the repository in the selftest"]
 OBLIGATIONS = {
+    "history_sequences": "operation sequences (non-initial process states) explored",
     "empty_input": "the empty byte string / empty Base58 string was encoded/decoded",
     "leading_zeros": "an input with >= 2 leading zero bytes was round-tripped",
     "mutant_valid": "a mutated string that is itself checksum-valid was offered (must be accepted)",
@@ -103,7 +104,19 @@ CASES = {"bytes": chk_bytes, "str": chk_str}
 
 
 def run_case(kind, case):
+    if kind == "seq":
+        from vf import seqexplore
+        return seqexplore.replay(run_case, case)
     return CASES[kind](case)
+
+
+def seq_ops(job):
+    seed = job["seed"]
+    bs = base_strings(seed)
+    ops = [("bytes", {"b": ""}), ("bytes", {"b": "0000ff"}), ("bytes", {"b": filler(seed, "c07-seq", 21).hex()}), ("bytes", {"b": "00" * 5}),
+           ("str", {"s": bs[2].hex()}), ("str", {"s": (bs[2][:-1] + b"1").hex()}), ("str", {"s": b"".hex()}), ("str", {"s": b"11".hex()}),
+           ("str", {"s": b"0OIl".hex()}), ("str", {"s": (b" " + bs[1]).hex()}), ("str", {"s": bs[5].hex()})]
+    return ops
 
 
 # ---------------------------------------------------------------- enumeration
@@ -221,10 +234,15 @@ def jobs(tier, seed):
     if tier == "thorough":
         for i in (0, 1):
             js.append({"name": f"str/edit2/{i}", "kind": "str", "part": "edit2", "idx": i, "weight": 20})
+    from vf.runner import seq_jobs
+    js += seq_jobs(2, weight=2)
     return js
 
 
 def run_job(job):
+    if job["part"] == "seq":
+        from vf.runner import run_seq_job
+        return run_seq_job(job, seq_ops(job), run_case)
     acc = Acc(job)
     seen = set()
     if job["kind"] == "bytes":
